@@ -1880,9 +1880,10 @@ def arms_gate(chk, prop, gate=None):
             translator_messages=tr_err.get((loop, req), []),
             theorems=mine)
         if d.get("path") is not None and (loop, req) not in tr_err:
-            detail["request_sequence"] = d["path"] + [f"then: {ARM_REQS[req]}" if req < 5 else
-                                                      ("then: terminate_child is entered" if req == 5 else
-                                                       "then: the grace period ends")]
+            detail["request_sequence"] = d["path"] + [ARM_REQS[req] if req < 5 else
+                                                      ("(terminate_child is entered: a slow-timeout termination or a "
+                                                       "shutdown request)" if req == 5 else "(the grace period ends)")]
+            detail["differs_at"] = "the last element of request_sequence; everything before it is handled alike"
             chk.violation("broken-obligation", f"arm-table:{ARM_LOOPS[loop]}:{ARM_REQS[req]}", detail)
         else:
             if (loop, req) not in tr_err:
